@@ -44,7 +44,7 @@ import (
 
 type params struct {
 	Leg       string `json:"leg"` // pair | eager | idle | deadline
-	API       string `json:"api"` // ctx | bg | timeout | url | urlparse | dialer | urlctx
+	API       string `json:"api"` // ctx | bg | timeout | url | urlparse | dialer | urlctx | regctx
 	Call      []byte `json:"call,omitempty"`
 	PW        []byte `json:"pw,omitempty"`
 	CallClass string `json:"call_class,omitempty"`
@@ -113,8 +113,8 @@ var Check = &vrt.Check{
 }
 
 var (
-	loginAPIs    = []string{"ctx", "bg", "timeout", "url", "urlparse", "dialer", "urlctx"}
-	deadlineAPIs = []string{"ctx", "timeout", "url", "dialer", "urlctx", "urlparse", "dialer-reused"}
+	loginAPIs    = []string{"ctx", "bg", "timeout", "url", "urlparse", "dialer", "urlctx", "regctx"}
+	deadlineAPIs = []string{"ctx", "timeout", "url", "dialer", "urlctx", "urlparse", "dialer-reused", "regctx"}
 )
 
 func plan(seed int64, tier string) []vrt.Case {
@@ -215,6 +215,9 @@ func plan(seed int64, tier string) []vrt.Case {
 		add(params{Leg: "deadline", API: api, Kind: "prompt-never-reads", DMs: 300, CallMiB: 24, PW: []byte("secret")})
 	}
 	add(params{Leg: "deadline", API: "ctx", Kind: "callsign-forever", DMs: 300, CallMiB: 24, PW: []byte("secret")})
+	for _, kind := range []string{"silent", "prompt-then-silence", "garbage-lines", "callsign-forever"} {
+		add(params{Leg: "deadline", API: "regctx", Kind: kind, DMs: 300, Call: []byte("LA5NTA"), PW: []byte("secret")})
+	}
 	for _, kind := range []string{"silent", "prompt-then-silence", "partial-prompt"} {
 		add(params{Leg: "deadline", API: "dialer-reused", Kind: kind, DMs: 300, Call: []byte("LA5NTA"), PW: []byte("secret")})
 	}
@@ -375,6 +378,14 @@ func prepDial(api, addr, call, pw string, timeout time.Duration) (do func() (net
 			}
 			return d.DialURL(u)
 		}, false
+	case "regctx":
+		// the way applications dial: through the transport package's registry, with a context and no dial_timeout parameter
+		u, _ := mkURL("url", addr, call, pw, timeout, false)
+		return func() (net.Conn, error) {
+			ctx, cancel := context.WithTimeout(context.Background(), timeout)
+			defer cancel()
+			return transport.DialURLContext(ctx, u)
+		}, false
 	case "urlctx":
 		u, _ := mkURL("url", addr, call, pw, timeout, false)
 		return func() (net.Conn, error) {
@@ -428,6 +439,8 @@ type sideResult struct {
 	rerr  error // read error other than EOF
 	werr  error // write or half-close error
 	reads int
+	// copied: (the rest of) the stream was taken with io.Copy
+	copied bool
 }
 
 type pauseSpec struct {
@@ -448,7 +461,22 @@ func transfer(conn net.Conn, send []byte, r *rand.Rand, waitPeer bool, pause *pa
 		defer close(readDone)
 		rr := rand.New(rand.NewSource(rseed))
 		var buf []byte
+		// one side in four takes (the rest of) the stream the way a relay does: io.Copy, directly from the first byte or
+		// after a few Read calls (io.Copy uses the connection's WriteTo when it has one)
+		style := rr.Intn(8)
 		for {
+			if style < 2 && res.reads >= []int{0, 3}[style] {
+				var rest bytes.Buffer
+				_, err := io.Copy(&rest, conn)
+				res.reads++
+				res.copied = true
+				res.got = append(res.got, rest.Bytes()...)
+				if err != nil {
+					res.rerr = err
+					conn.Close()
+				}
+				return
+			}
 			var n int
 			switch {
 			case res.reads < 6:
@@ -522,6 +550,10 @@ func addPlanCounters(o *vrt.Obs, dir string, st tcpx.Stats) {
 
 // judgeStream compares what one application read with what the other one wrote.
 func judgeStream(o *vrt.Obs, leg, dir, reader string, want []byte, res sideResult, p params) {
+	if res.copied {
+		o.Count("streams_taken_with_io.Copy_"+dir, 1)
+		reader += " (io.Copy)"
+	}
 	if cl := classify(want, res.got); cl != "" {
 		if leg == "eager" && dir == "s2c" {
 			// Outside the property: C15's stream clause speaks of "dialling a listener of this
